@@ -11,4 +11,4 @@ module D = Driver.Make (struct
   let case_pos = function M.XI q -> `I q | M.XO q -> `O q | M.XH -> `H
   let case_z = function M.Z0 -> `Z0 | M.Zpos p -> `Pos p | M.Zneg p -> `Neg p
 end)
-let () = D.main [ ("C03", M.run_C03); ("C04", M.run_C04); ("C05", M.run_C05); ("C06", M.run_C06); ("C07", M.run_C07) ]
+let () = D.main [ ("C03", M.run_inscr_ev); ("C04", M.run_inscr_ev); ("C05", M.run_inscr_ev); ("C06", M.run_inscr_ev); ("C07", M.run_inscr_ev); ("plain", M.run_inscr) ]
